@@ -4,7 +4,7 @@ from tools import vlib, cli
 RULE = ("lua_version() on every built-in library, on all 64 subsets of the six known versions, random lists with unknown names, and "
         "base chains of generated libraries; the construct matrix (goto, label, //, bitwise ops, <const>, Luau types, compound assignment, "
         "interpolated strings, continue, LuaJIT literals, if-expressions, //=, plain 5.1) embedded in 6 contexts and parsed with the real "
-        "full_moon under each version set; the command-line tool over chains of 1-33 std files with the dialect declared only at the bottom, sources named by path (`.lua`, `.luau`) and piped through `-`; non-trivial = more than one or an unknown version declared, or a dialect-gated construct")
+        "full_moon under each version set; the command-line tool over chains of 1-33 std files with the dialect declared only at the bottom, sources named by path (`.lua`, `.luau`) and piped through `-`; project files named like a built-in library reached directly and through `base:`; non-trivial = more than one or an unknown version declared, or a dialect-gated construct")
 
 
 def body(ctx):
@@ -12,6 +12,7 @@ def body(ctx):
     outdir, meta = ctx.harness("c16", n)
     ctx.correspond(outdir, nontrivial_tag=lambda t: any(x in t for x in ("multi", "unknown-version", "accept", "builtin")) and "plain51" not in t)
     cli_chains(ctx)
+    shadowed_builtins(ctx)
 
 
 def cli_chains(ctx):
@@ -65,6 +66,40 @@ def cli_chains(ctx):
                     ctx.violation(f"implementation violates the specification: with a chain of {length} std files whose last one has base {bottom} (no file declares lua_versions itself), "
                                   f"{fname} is {'rejected with a parse error' if got else 'accepted'}, but the effective library declares exactly the dialects of {bottom}",
                                   f"directory: {d}\nconfig: {cfg} (std = c{length}_{bottom}_1 -> ... -> c{length}_{bottom}_{length} -> {bottom})\nfile: {fname}\nstdout (head): {out[:500]}")
+
+
+def shadowed_builtins(ctx):
+    """a project file named like a built-in library (`lua52.yml`, `luau.yml`) is that library for this project — also when
+    another file reaches it through `base:`: the dialects of the effective library are those the project's file declares"""
+    for case, local, versions, program, want_parse_error in (
+            ("widen", "lua52", ["lua52", "luajit"], "local big = 1LL\ngoto done\nprint(big)\n::done::\nprint(big)\n", False),
+            ("narrow", "luau", ["lua52"], "local count: number = 1\ncount += 1\nprint(count)\n", True),
+            ("narrow53", "lua53", ["lua51"], "local x = 7 // 2\nreturn x & 1\n", True),
+            ("widen51", "lua51", ["lua51", "luau"], "local n: number = 1\nreturn n\n", False)):
+        d = os.path.join(ctx.workdir, "shadowed_" + case)
+        os.makedirs(d, exist_ok=True)
+        with open(os.path.join(d, local + ".yml"), "w") as fh:
+            fh.write("---\nlua_versions:\n" + "".join(f"  - {v}\n" for v in versions) + "globals:\n  print:\n    args:\n      - type: \"...\"\n")
+        with open(os.path.join(d, "game.yml"), "w") as fh:
+            fh.write(f"---\nbase: {local}\nglobals:\n  game.tick:\n    args: []\n")
+        with open(os.path.join(d, "mid.yml"), "w") as fh:
+            fh.write("---\nbase: game\nglobals:\n  mid:\n    any: true\n")
+        with open(os.path.join(d, "input.lua"), "w") as fh:
+            fh.write(program)
+        for std in (local, "game", "mid"):
+            with open(os.path.join(d, f"cfg_{std}.toml"), "w") as fh:
+                fh.write(f'std = "{std}"\n')
+            rc, out, err = cli.run_selene(["--config", f"cfg_{std}.toml", "--display-style", "json2", "--num-threads", "1", "input.lua"], d)
+            diags, summary, badl = cli.parse_json_lines(out)
+            got = any(x.get("code") == "parse_error" for x in diags)
+            ctx.evaluations += 1
+            if "panicked" in err or summary is None:
+                ctx.violation(f"implementation violates the specification: the command-line tool fails with std = {std} next to a project file named {local}.yml",
+                              f"directory: {d}\nconfig: cfg_{std}.toml\nstderr (head): {err[:500]}")
+            elif got != want_parse_error:
+                via = "" if std == local else f" (std = {std}, which reaches {local}.yml through base:)"
+                ctx.violation(f"implementation violates the specification: the project's {local}.yml declares lua_versions {versions}{via}, but input.lua is {'rejected with a parse error' if got else 'accepted'}",
+                              f"directory: {d}\nconfig: cfg_{std}.toml\nfiles: {local}.yml (lua_versions {versions}), game.yml (base: {local}), mid.yml (base: game)\nsource:\n{program}\nstdout (head): {out[:400]}")
 
 
 def check(ctx):
